@@ -14,13 +14,18 @@ def run(rep):
         rt_common.std_configs(rng, rep.tier, families=True),
         dfs=("bad_loss", "false"),
         search="c03_search", search_what="two clients call every messaging method once with position-tagged arguments, fair schedule (Runtime/Explore.v mixed); anomalies (kind, client, seq): 1 other method/arguments, 3 never executed, 4 executed twice, 5/6 foreign or fabricated reply, 7 caller panicked while actor alive")
+    rt_common.interact_exec_part(rep, PID, random.Random(rep.seed + 11))
     runs = []
     for lib in gen_impl.LIBS:
         for ch in ((0, 1) if rep.tier == "quick" else (0, 1, 2, 3)):
             runs.append(["mixed", lib, ch, "clients=%d" % (4 if rep.tier == "quick" else 8), "calls=%d" % (60 if rep.tier == "quick" else 300), "seed=%d" % (rep.seed % 100000)])
             if PID in ("C02", "C03"):
                 runs.append(["burst", lib, ch, "k=%d" % (ch + 3 if ch else 6)])
-    rt_common.impl_side(rep, PID, runs, lambda a, d: probe.oracle_mixed(d) if a[0] == "mixed" else probe.oracle_burst(d, None if a[2] == 0 else a[2]))
+    # a reply that takes long (the actor is busy with an earlier call): the caller waits, whatever the runtime and channel kind
+    runs += [["slowreply", lib, ch, "ms=%d" % (5600 if rep.tier == "quick" else 12000)]
+             for lib in (("std",) if rep.tier == "quick" else gen_impl.LIBS) for ch in ((0, 1) if rep.tier == "quick" else (0, 1, 2))]
+    rt_common.impl_side(rep, PID, runs, lambda a, d: probe.oracle_mixed(d) if a[0] == "mixed" else
+                        probe.oracle_slowreply(d) if a[0] == "slowreply" else probe.oracle_burst(d, None if a[2] == 0 else a[2]))
 
 
 def replay(rep, path):
